@@ -191,6 +191,25 @@ impl NameMap {
             }
         }
 
+        // Local variables are printed as plain identifiers next to the names of the functions and global
+        // variables a function body uses (HLSL prints them relative to the root, MSL passes globals on as
+        // parameters under their leaf name) - a local variable that takes one of those names would capture the use
+        // Reserve the name given to every function and global variable that is used by some function body
+        let usage = usage_analysis::GlobalUsageAnalysis::calculate(module);
+        for id in module.function_registry.iter() {
+            for used_symbol in usage.get_usage_for_function(id) {
+                let symbol = match *used_symbol {
+                    usage_analysis::UsageSymbol::Function(id) => NameSymbol::Function(id),
+                    usage_analysis::UsageSymbol::GlobalVariable(id) => NameSymbol::GlobalVariable(id),
+                    usage_analysis::UsageSymbol::ConstantBuffer(_) => continue,
+                };
+                // Intrinsics do not have generated names
+                if let Some(name_string) = name_map.names.get(&symbol) {
+                    used_names_all_scopes.insert(name_string.name.clone());
+                }
+            }
+        }
+
         // We generally assume the names setup for local variables will not conflict
         // This will not be the case if we generate a name - so first find all the names we do not want to generate into
 
